@@ -60,9 +60,10 @@ def hsDec (dec : Dec) (s : HsRx) (typ : UInt8) (body : Bytes) : Option Bytes :=
 /-- one pass through `readRecordOrCCS(expectChangeCipherSpec)` with the handshake not yet
 complete, up to the point where it returns or calls `retryReadRecord` -/
 def readOneHs (P : Params) (dec : Dec) (expectCCS : Bool) (s : HsRx) : HsStep × HsRx :=
-  let f1 := fill P.recordHeaderLen s.io.raw s.io.chunks
+  let f1 := s.io.fill P P.recordHeaderLen
   -- `if !handshakeComplete && typ == 0x80` (SSLv2 hello), checked on the header alone
-  if f1.2.2 ∧ (f1.1.getD 0 0).toNat = 0x80 then (.err .badVersion, { s with io := ⟨f1.1, f1.2.1⟩ })
+  if f1.2.2 ∧ (f1.1.getD 0 0).toNat = 0x80 then
+    (.err .badVersion, { s with io := { s.io with raw := f1.1, chunks := f1.2.1 } })
   else
   match nextFrame P s.io with
   | (.err e, io') => (.err e, { s with io := io' })
@@ -108,7 +109,7 @@ def readRecordHs (P : Params) (dec : Dec) (expectCCS : Bool) : Nat → HsRx → 
       match readOneHs P dec expectCCS s with
       | (.grew, s1) => (none, s1)
       | (.ccs, s1) => (none, s1)
-      | (.err e, s1) => (some e, { s1 with err := some e })
+      | (.err e, s1) => (some e, if e = .timeout then s1 else { s1 with err := some e })
       | (.retry, s1) =>
         let s2 := { s1 with retry := s1.retry + 1 }
         if P.maxUselessRecords < s2.retry then (some .tooManyIgnored, { s2 with err := some .tooManyIgnored })
